@@ -8,7 +8,7 @@ import ast
 
 from engine import facts
 from engine.astutil import src, dotted, call_name, Guards, compare_parts, enclosing_map
-from engine.linear import form, NotLinear, atom
+from engine.linear import form, NotLinear, atom, const
 from engine.loader import AnalysisError
 from engine.switch import enumerate_paths, inline
 
@@ -850,7 +850,8 @@ def _renderer(repo, rep):
     n += 1
     rep.check(any(any(isinstance(x, ast.Yield) for x in ast.walk(s)) for s in tail), 'C04.i', 'as_lines:final-flush',
               al.where, 'last line flushed', 'as_lines does not yield the last line')
-    rep.floor('C04.i', n, 6)
+    n += utils_rules(repo, rep, 'C04.i')
+    rep.floor('C04.i', n, 8)
 
 
 def _renderer_facts(rep, m, f, rule, allow_extra_writes):
@@ -942,3 +943,43 @@ def _single_assign_env(fn):
             counts[s.targets[0].id] = counts.get(s.targets[0].id, 0) + 1
             vals[s.targets[0].id] = s.value
     return {k: v for k, v in vals.items() if counts[k] == 1}
+
+
+def utils_rules(repo, rep, rule):
+    """rfind_idx returns the index of the *last* element satisfying the predicate (the renderers trim that
+    fragment): reversed scan, index length - i - 1, -1 when nothing matches"""
+    u = repo.module('utils')
+    f = u.funcs.get('rfind_idx')
+    n = 0
+    if f is None:
+        raise AnalysisError('utils.rfind_idx vanished')
+    pred, seq = f.params[0], f.params[1]
+    loops = [l for l in ast.walk(f.node) if isinstance(l, ast.For)]
+    n += 1
+    ok = False
+    detail = 'no loop'
+    if len(loops) == 1:
+        lp = loops[0]
+        it = src(lp.iter).replace(' ', '')
+        rets = [r for r in ast.walk(lp) if isinstance(r, ast.Return)]
+        env = {src(a.targets[0]): a.value for a in ast.walk(f.node) if isinstance(a, ast.Assign) and isinstance(a.targets[0], ast.Name)}
+        if it in ('enumerate(reversed(%s))' % seq,) and isinstance(lp.target, ast.Tuple) and len(rets) == 1:
+            i, el = (e.id for e in lp.target.elts)
+            g = Guards(f.node)
+            try:
+                want = atom('len(%s)' % seq).add(atom(i).scale(-1)).add(const(-1))
+                ok = form(rets[0].value, env) == want and any(ff.pol and ff.text == '%s(%s)' % (pred, el) for ff in g.of(rets[0]))
+            except NotLinear:
+                ok = False
+            detail = 'returns %s under %s' % (src(rets[0].value), g.texts(rets[0]))
+        elif it == 'range(len(%s)-1,-1,-1)' % seq and len(rets) == 1:
+            ok = src(rets[0].value) == src(lp.target)
+            detail = 'range scan'
+        else:
+            detail = 'iterates %s' % it
+    tail = f.node.body[-1]
+    ok = ok and isinstance(tail, ast.Return) and src(tail.value) == '-1'
+    rep.check(ok, rule, 'rfind_idx:last-match-index', f.where, 'index of the last match, -1 if none',
+              'utils.rfind_idx no longer returns the index of the last element satisfying the predicate (%s): the renderers would trim '
+              'the wrong text fragment of a line' % detail, nontrivial=True)
+    return n
